@@ -46,7 +46,7 @@ def rule_scope(crate):
     # every expression visit in the arm uses the clone
     n_visits = 0
     for n in walk(arm["body"]):
-        if n.get("k") == "MethodCall" and (callee(n) or "").endswith("Transformer::transform_expression"):
+        if n.get("k") == "MethodCall" and (callee(n) or "").endswith(("Transformer::transform_expression", "Transformer::transform_define_variable")):
             n_visits += 1
             r = local_of(n["recv"])
             vf, vl = crate.loc(fn, n)
@@ -55,6 +55,25 @@ def rule_scope(crate):
                 out.ok(key, vf, vl, "resolved with the function-scoped transformer `%s`" % clone_name)
             else:
                 out.violation(key, vf, vl, "an expression of the function is resolved with the session-wide transformer instead of `%s`: a parameter or where-local named like a (prefixed) unit is read as that unit" % clone_name)
+    # order: every parameter is registered as a shadowing name BEFORE any expression of the function (body or
+    # where-clause) is resolved — otherwise a parameter named like a unit is still that unit in those expressions
+    body = peel(arm["body"])
+    stmts = list(body.get("stmts", [])) + ([body["tail"]] if body.get("tail") is not None else [])
+    param_ids = {q["id"] for q in walk(arm["pat"]) if q.get("k") == "Binding" and q.get("name") == "parameters"}
+    reg_idx, visit_idx = [], []
+    for si, st in enumerate(stmts):
+        has_reg = any(x.get("k") == "MethodCall" and x["name"] == "add_shadowing_identifier" for x in walk(st))
+        uses_params = any(x.get("k") == "Path" and x["res"].get("r") == "local" and x["res"]["id"] in param_ids for x in walk(st))
+        if has_reg and uses_params:
+            reg_idx.append(si)
+        if any(x.get("k") == "MethodCall" and (callee(x) or "").endswith(("Transformer::transform_expression", "Transformer::transform_define_variable")) for x in walk(st)):
+            visit_idx.append(si)
+    if not reg_idx:
+        out.violation("transform_statement:DefineFunction:params-before-visits", cf, cl, "the parameters are not registered as shadowing identifiers on the function-scoped transformer")
+    elif visit_idx and max(reg_idx) < min(visit_idx):
+        out.ok("transform_statement:DefineFunction:params-before-visits", cf, cl, "parameters are registered (statement %d) before the first expression of the function is resolved (statement %d)" % (max(reg_idx), min(visit_idx)))
+    elif visit_idx:
+        out.violation("transform_statement:DefineFunction:params-before-visits", cf, cl, "an expression of the function (body or where-clause) is resolved before the parameters are registered as shadowing names: a parameter named like a unit (`m`, `s`, `dozen`) is read as that unit there")
     out.analysed = {"visits": n_visits, "shadow_registrations": len(regs)}
     out.floor("visits", n_visits, 2)
     return out
